@@ -346,6 +346,36 @@ func runLeaseScenario(sc leaseScenario) (*leaseSys, bool) {
 		holder.locker.Unlock()
 		s.log(map[string]any{"e": "unlocked", "p": 1})
 		s.probe()
+		if sc.Phase >= 2 {
+			// hand-off while the old tenure's renewal reply is still in flight: the contender acquires and is the holder
+			// under observation when the reply arrives; its record must stay, nobody else may acquire
+			if !contender.locker.TryLock(context.Background()) {
+				s.log(map[string]any{"e": "freetry", "p": 2, "ok": false})
+				close(holder.fac.casReplyGo)
+				break
+			}
+			s.log(map[string]any{"e": "acq", "p": 2})
+			close(holder.fac.casReplyGo)
+			for i := 0; i < 6; i++ {
+				time.Sleep(time.Duration(ttl/12) * time.Microsecond)
+				s.probe()
+				ok := waiter.locker.TryLock(context.Background())
+				s.log(map[string]any{"e": "try", "p": 3, "ok": ok})
+				if ok {
+					waiter.locker.Unlock()
+				}
+			}
+			s.log(map[string]any{"e": "rel", "p": 2})
+			contender.locker.Unlock()
+			s.log(map[string]any{"e": "unlocked", "p": 2})
+			observe(s.now()+2*ttl, false)
+			ok := waiter.locker.TryLock(context.Background())
+			s.log(map[string]any{"e": "freetry", "p": 3, "ok": ok})
+			if ok {
+				waiter.locker.Unlock()
+			}
+			break
+		}
 		if sc.Phase%2 == 0 {
 			close(holder.fac.casReplyGo)
 			time.Sleep(2 * time.Millisecond)
@@ -559,6 +589,7 @@ func driveLease(opt *Options) error {
 			for k := 1; k <= 2; k++ {
 				scs = append(scs, leaseScenario{Kind: "slowreply", TTL: ttl, Periods: k, Phase: 0})
 				scs = append(scs, leaseScenario{Kind: "slowreply", TTL: ttl, Periods: k, Phase: 1})
+				scs = append(scs, leaseScenario{Kind: "slowreply", TTL: ttl, Periods: k, Phase: 2})
 			}
 		}
 	case "handoff": // C01 under real leases: a caller that waited long acquires and holds
@@ -568,6 +599,9 @@ func driveLease(opt *Options) error {
 			}
 			scs = append(scs, leaseScenario{Kind: "handoff", TTL: ttl, Phase: 6, Mix: 2})
 			scs = append(scs, leaseScenario{Kind: "handoff", TTL: ttl, Phase: 2, Mix: 2})
+			// hand-off while the reply of the old holder's renewal is in flight
+			scs = append(scs, leaseScenario{Kind: "slowreply", TTL: ttl, Periods: 1, Phase: 2})
+			scs = append(scs, leaseScenario{Kind: "slowreply", TTL: ttl, Periods: 2, Phase: 2})
 		}
 	default:
 		for _, ttl := range ttls {
